@@ -7,7 +7,7 @@ class C31(ThreadsimProp):
     id = "C31"
     name = "c31"
     bias = {"printer": 4, "followup": 1, "interrupt": 9, "close": 3, "longloop": 6}
-    own_classes = {"interrupt-lost", "spurious-interrupt", "not-prompt", "flag-model-mismatch", "model-desync",
+    own_classes = {"interrupt-lost", "spurious-interrupt", "not-prompt", "flag-model-mismatch", "model-desync", "request-lost",
                    "interrupt-ack", "deadlock", "step-limit", "server-thread-panicked"}
     rule = ("case = one seeded client workload biased towards interrupts, closes and finite long-running evals x 4 "
             "schedules; every flag write (interrupt, close, disconnect, watchdog broadcast), every worker dequeue+reset and "
